@@ -260,7 +260,9 @@ impl StaticFile {
         indir: impl AsRef<Path>,
         to: &str,
     ) -> Result<&mut Self> {
-        for entry in read_dir(self.path_for(indir))? {
+        let indir = self.path_for(indir);
+        println!("cargo:rerun-if-changed={}", indir.display());
+        for entry in read_dir(indir)? {
             let entry = entry?;
             let file_type = entry.file_type()?;
             let to = if to.is_empty() {
